@@ -325,6 +325,15 @@ func m4Valid(r *rng, s *sink) (*m4Tables, []byte) {
 			deltas[i] = uint32(pick(r, []int{1001, 1000, 1, 3003, 90000, 500, 17, 0}))
 		}
 	}
+	if t.ts >= 30000 && r.chance(1, 6) {
+		// a long recording: the summed sample durations pass 2^32 ticks (hours at these timescales)
+		for i := range deltas {
+			if r.chance(2, 3) {
+				deltas[i] = pick(r, []uint32{1 << 31, 1<<32 - 1, 3000000000, 2592000000, 2592000090})
+			}
+		}
+		s.count("m4.long_recording")
+	}
 	for i := 0; i < n; {
 		j := i
 		for j < n && deltas[j] == deltas[i] && !(j > i && r.chance(1, 4)) {
